@@ -1718,6 +1718,12 @@ func runC08(r *hx.Result, cfg hx.Config) {
 	// stream, so the schedules below are the same as without it
 	e.stopServer()
 	e.sweepAll(rand.New(rand.NewSource(cfg.Seed^0x5eed08)), nSweep, nSweepKill, within)
+	// a pipelined packet [write, reads with huge replies] of which only the first reply is read (bigreply.go)
+	for _, bc := range bigCases(cfg.Tier, cfg.Search) {
+		if within() {
+			e.bigReply(bc)
+		}
+	}
 	for i := 0; i < nWindow && within(); i++ {
 		if i%3 == 2 {
 			run(liveWindowScenario(rng))
